@@ -12,6 +12,7 @@ import (
 	"sort"
 	"strconv"
 	"strings"
+	"testing/iotest"
 
 	"github.com/fxamacker/cbor/v2"
 	"github.com/gofiber/fiber/v3/client"
@@ -71,7 +72,12 @@ type tok struct {
 type fileSpec struct {
 	Field   string `json:"field,omitempty"` // "" = not set
 	Name    string `json:"name"`
-	Content string `json:"content"`
+	Content string `json:"-"` // may be a megabyte: the evidence carries size, hash and reader kind
+	Size    int    `json:"size"`
+	// Reader (files given as io.Reader): 0 plain; 1 last bytes together with io.EOF
+	// (iotest.DataErrReader, what gzip.Reader does); 2 one byte per Read; 3 half reads;
+	// 4 zero-length reads with nil error between the data
+	Reader int `json:"reader"`
 	// Via: 0 AddFileWithReader(name, r); 1 AddFile(path); 2 AddFiles(AcquireFile(name, reader));
 	// 3 AddFiles(AcquireFile(name, path)) - name and path differ; 4 AddFiles(AcquireFile(path))
 	Via      int    `json:"via"`
@@ -327,6 +333,60 @@ func xmlSafe(r *gen.Rand) string {
 	return mix(r, "<>&\"' ;=/", 1, 8)
 }
 
+// genFileContent: mostly small contents; sizes around the boundaries of the copy buffers a client
+// may use (4 KiB, 32 KiB, 1 MiB) every now and then.
+func genFileContent(r *gen.Rand) string {
+	n := r.Range(0, 300)
+	switch r.PickW(30, 6, 1) {
+	case 1:
+		n = gen.Pick(r, []int{0, 1, 4095, 4096, 4097, 32767, 32768, 32769})
+	case 2:
+		n = 1<<20 + r.Range(-1, 1)
+	}
+	if n <= 300 {
+		return string(r.Bytes(n))
+	}
+	// a random block of prime length repeated: cheap, and a shifted or truncated copy differs
+	blk := r.Bytes(251)
+	b := make([]byte, n)
+	for i := range b {
+		b[i] = blk[i%251]
+	}
+	return string(b)
+}
+
+type zeroReadsReader struct {
+	r    io.Reader
+	tick int
+}
+
+func (z *zeroReadsReader) Read(p []byte) (int, error) {
+	z.tick++
+	if z.tick%2 == 1 {
+		return 0, nil
+	}
+	return z.r.Read(p)
+}
+
+// fileReader wraps the content in a reader of the configured behaviour.
+func fileReader(f fileSpec) io.ReadCloser {
+	var r io.Reader = strings.NewReader(f.Content)
+	switch f.Reader {
+	case 1:
+		r = iotest.DataErrReader(r)
+	case 2:
+		r = iotest.OneByteReader(r)
+	case 3:
+		r = iotest.HalfReader(r)
+	case 4:
+		r = &zeroReadsReader{r: r}
+	default:
+		return io.NopCloser(r)
+	}
+	// hide WriteTo and friends: the client sees a bare Reader
+	return io.NopCloser(struct{ io.Reader }{r})
+}
+
 func genConfig(r *gen.Rand) *config {
 	cf := &config{}
 	cf.Style = r.PickW(3, 1)
@@ -501,7 +561,9 @@ func genConfig(r *gen.Rand) *config {
 		n := r.Range(1, 3)
 		for i := 0; i < n; i++ {
 			f := fileSpec{Via: r.Intn(4)}
-			f.Content = string(r.Bytes(r.Range(0, 300)))
+			f.Content = genFileContent(r)
+			f.Size = len(f.Content)
+			f.Reader = r.PickW(3, 2, 1, 1, 1)
 			switch r.Intn(3) {
 			case 0:
 				f.Name = r.Ident(1, 6) + ".txt"
@@ -795,7 +857,7 @@ func (b *builder) send(cf *config) sendResult {
 			for _, f := range cf.Files {
 				switch f.Via {
 				case 0:
-					req.AddFileWithReader(f.Name, io.NopCloser(strings.NewReader(f.Content)))
+					req.AddFileWithReader(f.Name, fileReader(f))
 				case 1:
 					req.AddFile(b.filePath(f))
 				default:
@@ -837,7 +899,7 @@ func (b *builder) acquireFile(f fileSpec) *client.File {
 	case 3:
 		set = []client.SetFileFunc{client.SetFileName(f.Name), client.SetFilePath(b.filePath(f))}
 	default:
-		set = []client.SetFileFunc{client.SetFileName(f.Name), client.SetFileReader(io.NopCloser(strings.NewReader(f.Content)))}
+		set = []client.SetFileFunc{client.SetFileName(f.Name), client.SetFileReader(fileReader(f))}
 	}
 	if f.Field != "" {
 		set = append(set, client.SetFileFieldName(f.Field))
@@ -1370,8 +1432,15 @@ func (cf *config) judge(p *parsed) []finding {
 			if strings.ContainsAny(f.Name+f.Field, "\"\\") {
 				cls = "quote-or-backslash-in-name"
 			}
+			// name and field arrived, the bytes did not: the reader's behaviour is the class
+			for _, g := range p.Files {
+				if g.Name == f.Name && (f.Field == "" || g.Field == f.Field) && g.Hash != h && (f.Via == 0 || f.Via == 2) {
+					cls = "content|reader-" + []string{"plain", "data-with-eof", "one-byte", "half-reads", "zero-length-reads"}[f.Reader]
+					break
+				}
+			}
 			out = append(out, finding{"fidelity|file|missing-or-altered|" + cls, "file part did not arrive with name, field and content",
-				map[string]any{"index": i, "field": f.Field, "name": strconv.QuoteToASCII(f.Name), "hash": h, "size": len(f.Content), "received": p.Files}})
+				map[string]any{"index": i, "field": f.Field, "name": strconv.QuoteToASCII(f.Name), "hash": h, "size": len(f.Content), "reader": f.Reader, "received": p.Files}})
 		}
 		if len(left) > 0 && len(out) == 0 {
 			out = append(out, finding{"fidelity|file|unconfigured-part-arrived", "more file parts than configured", map[string]any{"extra": left}})
@@ -1623,6 +1692,11 @@ func runFidelity(e *ev.Env) {
 				// every multipart build costs a 1 MiB buffer in the client; the map-borne parts of
 				// such a configuration are the same as in the other body kinds
 				builds = 4
+			}
+		}
+		for _, f := range cf.Files {
+			if len(f.Content) > 64<<10 && builds > 2 {
+				builds = 2
 			}
 		}
 		fe.runConfig(c, cf, builds)
